@@ -357,6 +357,18 @@ func (d *drv) concurrent(sc vh.Scenario, rec *vh.Rec) {
 						defer cancel()
 						_, err := sk.GetQualities(ctx, engine.SFMining, pocutil.Hash{})
 						return err
+					case "Reader":
+						ctx, cancel := context.WithTimeout(context.Background(), time.Duration(st.Int("ms"))*time.Millisecond)
+						defer cancel()
+						rd, err := sk.GetQualitiesReader(ctx, fl, pocutil.Hash{})
+						if err != nil {
+							return nil
+						}
+						for {
+							if _, e := rd.Read(); e != nil {
+								return nil
+							}
+						}
 					}
 					return nil
 				})
